@@ -1,17 +1,41 @@
 UNITS = {
     "ip": dict(pkg="./pkg/ip", tags="default_build"),
+    "c14tc": dict(pkg="./pkg/tc", tags="default_build"),
+    "c14link": dict(pkg="./pkg/link", tags="default_build"),
+    # the package's own tests are tagged `privileged` (they need netlink/netns); the C14
+    # harness only calls pure functions, so the unit is built without that tag
+    "c14datapath": dict(pkg="./plugin/datapath", tags="default_build"),
+    "c14drvutils": dict(pkg="./plugin/driver/utils", tags="default_build"),
 }
 
 PROPS = {
     "C14": dict(
         level="exploration",
         technique="property-based testing (rapid): differential against bit-level / big-integer reference models",
-        rule="cases drawn by rapid generators; non-trivial = prefix length not byte aligned, or subnet with <= 2 host bits, or network with a leading zero byte; distinct = distinct scenario hash",
-        assumptions=[],
-        level_text="generated addresses/prefixes/names checked against independent bit-level and big-integer reference models; exploration, not proof",
-        level_note="trusts Go's net, math/big and crypto/sha1 as the reference; u32 semantics modelled as value/mask at byte offset into the IP header",
+        rule="cases drawn by rapid generators. Classifier cases: a CIDR (every prefix 0..32/0..128, byte/word boundaries and neighbours over-represented, "
+             "IPNet with/without host bits, IPv4 in 4- and 16-byte form) plus 1..4 probe addresses (inside; inside with one bit flipped at prefix boundary -2..+2; arbitrary) "
+             "in a header whose other address field holds an unrelated/inside/complement address; non-trivial = prefix length not a multiple of 8 (IPv4) / 32 (IPv6) or a one-bit-flip probe. "
+             "Gateway cases: non-trivial = prefix not byte aligned, subnet with <= 2 host bits, or network with a leading zero byte. "
+             "Table-id cases: 1..8 link indexes incl. neighbours and values equal modulo 2^8/2^16/1000; non-trivial = >= 2 distinct indexes. "
+             "Name cases: (namespace, name, prefix <= 4 bytes, 1..8 interface names); non-trivial = >= 2 distinct interfaces. distinct = distinct scenario hash",
+        assumptions=[
+            "tc u32 semantics: a key matches when the big-endian 32-bit word at byte offset Off of the network header ANDed with Mask equals Val; keys are ANDed; an empty key list matches every packet; IPv4 src/dst at 12/16, IPv6 src/dst at 8/24",
+            "net.IP cannot tell an IPv4-mapped IPv6 address (::ffff:a.b.c.d) from IPv4, so neither terway nor the reference can name one as IPv6: "
+            "classifier CIDRs whose address is IPv4-mapped are not generated, and gateway/index queries on IPv6 subnets whose start address (first for index >= 0, last for index < 0) "
+            "or expected result lies in ::ffff:0:0/96 are generated, counted (label outside-domain:*) and not judged",
+            "interface-name prefixes are at most 4 bytes (every caller passes \"cali\")",
+        ],
+        level_text="generated addresses/prefixes/indexes/names checked against independent bit-level and big-integer reference models; exploration, not proof",
+        level_note="trusts Go's net and math/big as the reference; u32 semantics modelled (value/mask at byte offset into the IP header), not executed in the kernel; "
+                   "the model demands keys in canonical form (Val has no bit outside Mask), which is what cls_u32's ((word^Val)&Mask)==0 reduces to for such keys; "
+                   "name distinctness is checked per pod over sampled interface names (the name keeps 44 bits of a hash, so distinctness is probabilistic by design); "
+                   "determinism is checked inside one process only",
         tests=[
             dict(unit="ip", test="TestVerifC14Gateway", quick=40000, thorough=4000000),
+            dict(unit="c14tc", test="TestVerifC14U32Src", quick=80000, thorough=4000000),
+            dict(unit="c14datapath", test="TestVerifC14DstIPRule", quick=40000, thorough=2000000),
+            dict(unit="c14drvutils", test="TestVerifC14RouteTableID", quick=8000, thorough=400000),
+            dict(unit="c14link", test="TestVerifC14VethName", quick=24000, thorough=1000000),
         ],
     ),
 }
